@@ -985,7 +985,7 @@ func genAdapters(r *rand.Rand, n int, tier string, emit func(string) string) {
 	}
 	rctxs := []string{"bg", "todo", "val", "valcancel", "deadline"}
 	ectxs := []string{"none", "none", "bg", "val", "valcancel", "deadline"}
-	statuses := []string{"200", "200", "204", "301", "400", "404", "429", "500", "501", "502", "503", "504", "599"}
+	statuses := []string{"200", "200", "204", "301", "400", "404", "429", "500", "501", "502", "503", "504", "505", "511", "599"}
 	for i := 0; i < n; i++ {
 		newCase()
 		bk := pick(r, bodies...)
